@@ -27,7 +27,7 @@ Ev == Tr[l]
 
 Ops == {"partition", "partition_refusal", "parse_size", "parse_count", "rt_size", "rt_count", "split", "split_join", "chunks",
         "int_to_bytes", "int_to_bytes_small", "int_from_bytes", "int_from_bytes_small", "int_rt",
-        "add_leading_zeros", "xor", "xor_prefix", "xor_twice", "to_hex", "from_hex", "hex_rt",
+        "add_leading_zeros", "xor", "xor_prefix", "xor_twice", "xor_twice_prefix", "to_hex", "from_hex", "hex_rt",
         "convert", "convert_utf8", "convert_db", "db_format", "db_format_utf8"}
 
 (* the domain of the round-trip property: identifiers of exactly `size` bytes, none of them all zero, *)
@@ -62,6 +62,9 @@ Expected(e) ==
       [] e.op = "add_leading_zeros"    -> Ok(AddLeadingZeros(e.x, e.n))
       [] e.op = "xor"          -> IF Len(e.a) = Len(e.b) THEN Xor(e.a, e.b) ELSE [out |-> "out-of-domain"]
       [] e.op = "xor_prefix"   -> IF Len(e.a) > Len(e.b) THEN Xor(e.a, e.b) ELSE [out |-> "out-of-domain"]
+      (* "XOR is an involution": xor-ing the same shorter string in twice gives a back - unless unequal lengths are refused *)
+      [] e.op = "xor_twice_prefix" -> IF Len(e.a) > Len(e.b) THEN (IF e.out = "raised" THEN Raised ELSE Ok(e.a))
+                                      ELSE [out |-> "out-of-domain"]
       [] e.op = "xor_twice"    -> IF Len(e.a) = Len(e.b) THEN Ok(e.a) ELSE [out |-> "out-of-domain"]   \* xor(xor(a, b), b)
       [] e.op = "to_hex"       -> Ok(ToHex(e.x))
       [] e.op = "from_hex"     -> IF WellFormedHex(e.h) THEN FromHex(e.h) ELSE [out |-> "out-of-domain"]
